@@ -16,6 +16,7 @@ PROP = {
              "Non-trivial: a history in which the circuit was observed open and later observed closed again; a filter case with a destination "
              "address on the first/last address of 10/8, 127/8, 172.16/12, 192.168/16 or directly outside. distinct = canonical JSON of the case"),
     "assumptions": [
+        "breaker unit: calls may overlap in time - one fail-safe is shared by every hooked request of the process, and a threaded application has several in flight. A call is split into its two halves (`with fs:` is __enter__ ... __exit__): begin reads the breaker's answer, other steps follow (calls, failures that trip the breaker, clock advances), end reports the outcome decided when the call began. Up to three calls are in flight; one rule builds the shape 'a call in flight through the gateway while others fail until the breaker trips, ends well during or after the cool-down, then the gateway fails once or twice'. A success of a call that went through the gateway clears the failure count whenever it ends; whether a failure reported while the breaker is open starts the cool-down again is left open (both readings kept)",
         "filter unit, metamorphic: a list decides by membership, so the same lists with every entry written twice (next to each other, and once more at the end) must give the same answer to every query; compared whenever neither filter raises",
         "the package __init__ files are replaced by empty shells (aiohttp/yarl/requests are not installed); fail_safe.py, traffic_filter.py, configuration.py, helpers.py, hooks/const.py, hooks/hook.py, hooks/helpers.py and hooks/requests.py run unchanged; _load_fail_safe and _build_traffic_filter_from_env_vars are extracted from the package __init__.py and executed, so the configuration path environment -> FailSafeConfig -> FailSafe is the package's own",
         "the clock is the module attribute `time` of fail_safe.py (plus time.time/monotonic while interceptor code runs), instants are multiples of 0.125 s; at now - trip == cool-down exactly both answers are accepted",
